@@ -549,7 +549,7 @@ package diff
 //@ func (*SpecAnalyser).Analyse
 //@ props C12 C13 C14
 //@ noinline
-//@ requires sd != nil && spec1 != nil && spec2 != nil && spec1.Paths != nil && spec2.Paths != nil
+//@ requires sd != nil && spec1 != nil && spec2 != nil && spec1.Paths != nil && spec2.Paths != nil && spec1.Info != nil && spec2.Info != nil
 //@ ensures result == nil
 //@ ensures vs_called("getURLMethodsFor") && vs_called("analyseSpecMetadata") && vs_called("analyseEndpoints") && vs_called("analyseRequestParams") && vs_called("analyseEndpointData") && vs_called("analyseResponseParams") && vs_called("analyseExtensions") && vs_called("AnalyseDefinitions")
 //@ ensures vs_callOrder("getURLMethodsFor") < vs_callOrder("analyseEndpoints") && vs_callOrder("getURLMethodsFor") < vs_callOrder("analyseRequestParams") && vs_callOrder("getURLMethodsFor") < vs_callOrder("analyseResponseParams")
